@@ -68,6 +68,10 @@ def run(ctx: Ctx) -> None:
         from .common import share_rules
         share_rules(ctx, "C19", "C08.R18", ["C19.R4"], "the DBFS store writes the marker of a blob where has_blob / fetch_blob look for it (under the internal directory): a store reopened on "
                     "the same internal directory reports the blob present whatever its data directory")
+    rep.rule("C08.R19", "as C07.R14 / C09.R19: a path that was never committed does not resolve: the local store resolves the entry of a path only when that very name exists and is a "
+                        "link (the directory holding the entries of longer paths is not a path)")
+    n19 = S.reads_after_presence(ctx, v, "C08.R19")
+    rep.floor("C08.R19", n19, 4)
     rep.rule("C08.R15", "a committed path resolves to the key it was committed with, whatever else is asked in the same call: fetch_paths of every store files each requested path in "
                         "one mapping that lives across the loop (as C19.R14)")
     n15 = S.every_path_answered(ctx, "C08.R15")
